@@ -2,7 +2,7 @@
 # usage: tools/mutant_run.sh <patch-file|@<commit>> <ID> [check args...]
 # runs ./check <ID> against a scratch worktree of /repo with the patch applied (or at a commit); removes it afterwards
 set -u
-P="$1"; shift
+P="$1"; shift; [[ "$P" == @* ]] || P=$(realpath "$P")
 WT=$(mktemp -d /tmp/wt.XXXXXX)
 rmdir "$WT"
 if [[ "$P" == @* ]]; then
